@@ -386,7 +386,7 @@ def run_both(ctx, sub, args):
         return None, out
     # the extracted model uses the system stack for its (non tail recursive) list functions: 300 KB entries
     # need more than the default 8 MB
-    rc2, out2, dt2 = sh("(ulimit -s 4000000 2>/dev/null || ulimit -s unlimited 2>/dev/null || true); %s < cases.tsv > model.out"
+    rc2, out2, dt2 = sh("ulimit -s 4000000 2>/dev/null || ulimit -s unlimited 2>/dev/null || true; %s < cases.tsv > model.out"
                         % vlib.modelrun_path(GROUP), cwd=d, timeout=3000)
     if rc2 != 0:
         return None, out2
